@@ -9,7 +9,7 @@ use crate::progcheck::{self, fnv, Judge, JR};
 use crate::realrun::{self, CompileOutcome, RunCfg};
 use cvx_core::engine::{Check, CheckInfo, ChunkResult, Tier, Violation};
 use cvx_core::gen_basic::{CfgLite, Family};
-use cvx_core::gen_c04::{FCyclic, FExhaust, FKinds, FManyUpvalues, FNames, FOddKeys, FSelfRef, FShape};
+use cvx_core::gen_c04::{FCyclic, FExhaust, FKinds, FManyUpvalues, FNames, FOddKeys, FSelfRef, FShape, FSortMixed};
 use cvx_core::ir::Module;
 use cvx_core::refsem;
 use cvx_core::region::{self, RegionOpts};
@@ -117,6 +117,7 @@ pub fn families(tier: Tier) -> &'static Vec<Box<dyn Family>> {
                 Box::new(FOddKeys),
                 Box::new(FSelfRef),
                 Box::new(FManyUpvalues),
+                Box::new(FSortMixed),
                 Box::new(FExpr::new()),
                 Box::new(FStmt::new(1)),
                 Box::new(FStmt::new(2)),
@@ -136,6 +137,7 @@ pub fn families(tier: Tier) -> &'static Vec<Box<dyn Family>> {
                 Box::new(FOddKeys),
                 Box::new(FSelfRef),
                 Box::new(FManyUpvalues),
+                Box::new(FSortMixed),
                 Box::new(FExpr::new()),
                 Box::new(FStmt::new(1)),
                 Box::new(FStmt::new(2)),
